@@ -30,7 +30,7 @@ def _seq(ctx, rule, key, got, want, site, what, optional=()):
         raise AnalysisBroken('%s %s: the same effects in another order (%s)' % (rule, key, g))
     missing = [x for x in w if x not in g or w.count(x) > g.count(x)]
     extra = [x for x in g if x not in w or g.count(x) > w.count(x)]
-    if not missing and any('stream<<' in x for x in extra):
+    if not missing and any(('stream<<' in x) or x.startswith('(str+=') or x == 'CXXThrowExpr' for x in extra):
         ctx.ob(rule, key, False, what + ' — additional output: %s' % [x[:100] for x in extra[:3]], site=site)
         return
     if not missing:
@@ -237,3 +237,58 @@ def _post_inc(ct):
         if n['k'] == 'UnaryOperator' and n.get('op') == '++' and any((x.get('ref') or {}).get('n', '').endswith('::_piece_count') for x in walk(n)):
             return bool(n.get('post'))
     return False
+
+
+def check_uci(ctx, p):
+    """uci() and parse_uci() per case"""
+    pk = p.enum('engine::PieceKind')
+    cas = p.enum('engine::Castling')
+    u = p.fn(POS + '::uci')
+    pu = p.fn(POS + '::parse_uci')
+    T = lambda s_: 'basic_string("%s",CXXDefaultArgExpr)' % s_
+    promos = None
+    for n in u.all_nodes():
+        if n['k'] == 'VarDecl' and n.get('name') == 'promotions':
+            for x in walk(n):
+                if x['k'] == 'StringLiteral':
+                    promos = x.get('s')
+    if promos is None:
+        raise AnalysisBroken('C16: promotion letter table of uci() not found')
+    for c_, names in ((cas['KING_CASTLING'], ('e1g1', 'e8g8')), (cas['QUEEN_CASTLING'], ('e1c1', 'e8c8'))):
+        for sd in (0, 1):
+            got = effects_under(u, kids(u.body), {'castling(move)': c_, '_current_side': sd, 'promotion(move)': 0}, keep=('str',))
+            _seq(ctx, 'C16.R5.uci-print', 'castling=%d,side=%d' % (c_, sd), got, ['return ' + T(names[sd])], u.loc(),
+                 'castling is printed as the king\'s move of the side to move')
+    for kind in ('NO_PIECE_KIND', 'KNIGHT', 'BISHOP', 'ROOK', 'QUEEN'):
+        got = effects_under(u, kids(u.body), {'castling(move)': 0, '_current_side': 0, 'promotion(move)': pk[kind]}, keep=('str',))
+        want = ['(str+=%s[file(from(move))])' % T('abcdefgh'), '(str+=%s[rank(from(move))])' % T('12345678'),
+                '(str+=%s[file(to(move))])' % T('abcdefgh'), '(str+=%s[rank(to(move))])' % T('12345678')]
+        if kind != 'NO_PIECE_KIND':
+            want.append('(str+=%s[%d])' % (T(promos), pk[kind]))
+        want.append('return str')
+        _seq(ctx, 'C16.R5.uci-print', 'promotion=%s' % kind, got, want, u.loc(),
+             'an ordinary move is printed as origin file, origin rank, target file, target rank and, only for a promotion, its letter')
+    # parser: the fifth character
+    letters = {'n': 'KNIGHT', 'b': 'BISHOP', 'r': 'ROOK', 'q': 'QUEEN'}
+    base = {'make_piece_kind(_board[from])': pk['KNIGHT'], 'get_piece_kind(_board[from])': pk['KNIGHT'], 'from': 12, 'to': 20,
+            'make_piece_kind(_board[12])': pk['KNIGHT'], 'get_piece_kind(_board[12])': pk['KNIGHT'], '_board[12]': 2, '_board[from]': 2,
+            'make_piece_kind(piece_at(12))': pk['KNIGHT'], 'piece_at(12)': 2, 'piece_at(from)': 2}
+    K = ('from', 'to', 'promotion', 'move')
+    got = effects_under(pu, kids(pu.body), dict(base, **{'str.size()': 4, 'str.length()': 4, 'str[4]': 0}), keep=K)
+    _seq(ctx, 'C16.R5.uci-parse', 'four characters', got, ['(move=create_promotion(12,20,promotion))', 'return move'], pu.loc(),
+         'a four-character move has no promotion piece and no fifth character is looked at')
+    pd = [n for n in pu.all_nodes() if n['k'] == 'VarDecl' and n.get('name') == 'promotion' and kids(n)]
+    ctx.ob('C16.R5.uci-parse', 'default promotion', len(pd) == 1 and Norm(pu).cval(kids(pd[0])[0]) == pk['NO_PIECE_KIND'],
+           'without a fifth character the promotion piece is none', site=pu.loc())
+    for l, kind in letters.items():
+        for ch in (l, l.upper()):
+            got = effects_under(pu, kids(pu.body), dict(base, **{'str.size()': 5, 'str.length()': 5, 'str[4]': ord(ch), 'str.at(4)': ord(ch)}), keep=K)
+            _seq(ctx, 'C16.R5.uci-parse', 'fifth character %r' % ch, got,
+                 ['(promotion=%d)' % pk[kind], '(move=create_promotion(12,20,promotion))', 'return move'], pu.loc(),
+                 'the fifth character selects the promotion piece (%s)' % kind)
+    # squares
+    for nm_, (r_, f_) in (('from', (1, 0)), ('to', (3, 2))):
+        d = [n for n in pu.all_nodes() if n['k'] == 'VarDecl' and n.get('name') == nm_ and kids(n)]
+        okd = len(d) == 1 and Norm(pu).s(kids(d[0])[0]) == 'make_square((str[%d]-49),(str[%d]-97))' % (r_, f_)
+        ctx.ob('C16.R5.uci-parse', 'square %s' % nm_, okd,
+               '%s is the square named by characters %d (file) and %d (rank)' % (nm_, f_, r_), site=pu.loc())
